@@ -536,30 +536,10 @@ def wfFeature (f : RFeature) : Bool :=
 /-- kf C01-repeated-qualifier-key: some feature repeats a qualifier key -/
 def repeatedQualKey (r : GbRec) : Bool := r.features.any (fun f => !distinct (f.quals.map (·.1)))
 
-/-- kf C01-source-without-organism: the layout writes a SOURCE block and leaves its (empty) ORGANISM line out -/
+/-- the layout writes a SOURCE block and leaves its (empty) ORGANISM line out (the class of the repaired defect
+C01-source-without-organism, 6ccbb58; kept as a class label of the judge) -/
 def orgOmitted (r : GbRec) (ℓ : RecLayout) : Bool :=
   ℓ.omitOrganism && r.organism == [] && !(ℓ.omitSource && r.source == [])
-
-/-- the text of the keyword block that follows SOURCE in the layout: the first extra block of slot 5, else the
-first REFERENCE line (number, two blanks, range), else the first extra block after the references, else what
-stands behind `FEATURES` -/
-def afterSourceText (r : GbRec) (ℓ : RecLayout) : Str :=
-  match (r.extras.drop (off ℓ.extraCuts 5)).take (ℓ.extraCuts.getD 5 0) with
-  | e :: _ => e.2
-  | [] =>
-    match r.refs with
-    | rf :: _ => refHead 0 rf
-    | [] =>
-      match (r.extras.drop (off ℓ.extraCuts 6)).take (afterRefsCount r ℓ) with
-      | e :: _ => e.2
-      | [] => c!"Location/Qualifiers"
-
-/-- what known finding C01-source-without-organism predicts: everything as the record states it (of a repeated
-qualifier key the last value), except that under a SOURCE block without ORGANISM line the text of the NEXT
-keyword block is returned as the organism -/
-def toSequenceOrg (r : GbRec) (ℓ : RecLayout) : Genbank.Sequence :=
-  let s := toSequenceM r
-  if orgOmitted r ℓ then { s with md := { s.md with organism := afterSourceText r ℓ } } else s
 
 /-- the property's quantifier as a decidable predicate on abstract records -/
 def wf (r : GbRec) : Bool :=
